@@ -20,6 +20,9 @@ CHECKS = {
     'C03': ('symbolic execution of the real rate() over a symbolic rank/score vector (values z3 Real, kinds z3 Int tags), z3-decided path partition; per path comparison with the real code on canonical dense ranks',
             'Every path of rate() over ALL finite int/float/bool rank or score vectors of length 2-4 (5 single-kind in thorough): the result equals the result for the canonical dense int ranks of the path\'s weak order; scores == negated ranks; omitted == [0..n-1].',
             'Trusted: z3 (LRA/LIA), exactness of CPython comparisons between finite int/float/bool. NaN/inf ranks outside. Game values concrete.', '6/C03'),
+    'C08': ('symbolic execution of the real rate()/predict_* with every arithmetic exception (zero division, sqrt domain, exp overflow, float underflow of exp/Phi/phi to zero) as a guarded path outcome; z3 refutes each guard on its cone of influence / the full path; open guards replayed on float code',
+            'Over the exact numeric domain of the property (symbolic beta covers the rescaling; sigma = 0 with tau > 0 included) and the listed shapes up to 8+8 players (16+16 and 8 teams in thorough): every guard on every path is refuted, no path ends in an exception.',
+            TRUST + ' Overflow/underflow of + - * / ** is argued by magnitudes, not solved.', '6/C08'),
     'C09': ('symbolic execution of the real predict_win (single and two-run) + z3 (QF_NRA with Phi axioms) per clause and path; sat models replayed on float code',
             'For every model and listed shape and all mu, sigma >= 0, beta > 0: one value per team in [0,1] summing to 1; every team permutation (all n!) and player reversal permutes the result; identical teams get identical values (two: exactly 1/2); raising any member\'s mu by any d > 0 never lowers own and never raises another team\'s value.',
             TRUST, '6/C09'),
